@@ -63,7 +63,7 @@ def make_cases(chk):
     rng = chk.rng
     quick = chk.tier == "quick"
     cases = []
-    for i in range(480 if quick else 12000):
+    for i in range(480 if quick else 50000):
         cat = CATS[i % len(CATS)]
         n = rng.choice([1, 2, 2, 3] if quick else [1, 2, 2, 3, 3, 4])
         A, b = gen_system(rng, cat, n, not quick)
@@ -80,7 +80,7 @@ def make_cases(chk):
         cases.append({"id": "s%d" % i, "steps": steps, "A": A, "b": b, "objs": objs, "kind": "system",
                       "meta": {"category": cat, "n": n, "rows": len(A)}})
     # path polytopes that real pruning runs hand to the LP (hook call log)
-    for i in range(30 if quick else 300):
+    for i in range(30 if quick else 1500):
         h = Hist("l%d" % i, rng, max_ops=4, ops=["compose_f_schema", "compose_t_schema", "compose_f_tree", "apply_func", "elim"])
         h._op("elim")
         steps = [{"op": "arm", "plan": {}, "log": True}] + h.steps + [{"op": "disarm"}]
